@@ -370,7 +370,25 @@ where
             //
             // If you don't understand this...that's fine, just don't mess with
             // it. :)
-            id if filter::is_psf_downcast_marker(id) => self
+            //
+            // A branch that is an `Option::None` subscriber (or an empty `Vec`)
+            // contains no subscribers at all, so it has no say in this: the
+            // other branch alone decides.
+            id if filter::is_psf_downcast_marker(id) => {
+                if super::subscriber_is_none(&self.inner) {
+                    self.subscriber.downcast_raw(id)
+                } else if super::subscriber_is_none(&self.subscriber) {
+                    self.inner.downcast_raw(id)
+                } else {
+                    self.subscriber
+                        .downcast_raw(id)
+                        .and(self.inner.downcast_raw(id))
+                }
+            }
+
+            // A `Layered` is only an `Option::None` subscriber if *both* of its
+            // branches are.
+            id if super::is_none_marker(id) => self
                 .subscriber
                 .downcast_raw(id)
                 .and(self.inner.downcast_raw(id)),
